@@ -4,7 +4,10 @@ import (
 	"fmt"
 	"net/http"
 	"net/url"
+	"os"
+	"strconv"
 	"strings"
+	"syscall"
 	"time"
 
 	"github.com/dunglas/mercure"
@@ -20,6 +23,50 @@ func init() { drivers["FAILW"] = runFailW }
 func runFailW(a args) error {
 	out := hx.NewOut(a.out, "MassCases", "fw_case", "fw_ok", "fw_ok")
 	auth := http.Header{"Authorization": {"Bearer " + hx.HSToken(map[string]any{"publish": []string{"*"}})}}
+	// a write transaction that fails at commit time: the database file's descriptor is replaced, behind bbolt's back, by a
+	// read-only one, so that everything up to the commit succeeds and the commit's writes fail (an I/O error at that instant)
+	for i := 0; i < (a.n+1)/2; i++ {
+		env := hx.NewEnv("bolt", mercure.WithAnonymous())
+		live := hx.Subscribe(env.Hub, "/.well-known/mercure?topic=t", nil)
+		live.W.WaitWrites(1, 5*time.Second)
+		if code, _ := hx.Post(env.Hub, url.Values{"topic": {"t"}, "id": {"first"}, "data": {"1"}}, auth); code != 200 {
+			return fmt.Errorf("first publish refused: %d", code)
+		}
+		if err := breakWrites(env.DBPath); err != nil {
+			return err
+		}
+		code, body := func() (c int, b string) {
+			defer func() {
+				if recover() != nil {
+					c, b = 0, ""
+				}
+			}()
+			return hx.Post(env.Hub, url.Values{"topic": {"t"}, "id": {"second"}, "data": {"2"}}, auth)
+		}()
+		lastAfter := "?"
+		if ts, ok := env.Transport.(mercure.TransportSubscribers); ok {
+			lastAfter, _, _ = ts.GetSubscribers()
+		}
+		live.W.WaitWrites(live.W.NumWrites()+1, 200*time.Millisecond)
+		delivered := strings.Contains(live.W.Body(), "id: second\n")
+		stored, err := hx.BoltIDsOfCopy(env.DBPath)
+		if err != nil {
+			return err
+		}
+		has := func(id string) bool {
+			for _, s := range stored {
+				if s == id {
+					return true
+				}
+			}
+			return false
+		}
+		acked := code == 200 && strings.TrimSpace(body) == "second"
+		live.Close()
+		env.Close()
+		term := fmt.Sprintf("{| fw_status := %d; fw_acked := %v; fw_delivered := %v; fw_stored := %v; fw_others_stored := %v; fw_last_is_previous := %v |}", code, acked, delivered, has("second"), has("first"), lastAfter == "first")
+		out.Add(term, map[string]any{"fault": "commit fails (descriptor made read-only)", "status": code, "acknowledged": acked, "delivered_live": delivered, "stored": has("second"), "stored_ids_count": len(stored), "last_event_id_is_previous": lastAfter == "first"}, true, fmt.Sprintf("status:%d", code), "fault:commit")
+	}
 	for i := 0; i < a.n; i++ {
 		size := []int{32761, 40000, 70000, 33000}[i%4]
 		env := hx.NewEnv("bolt", mercure.WithAnonymous())
@@ -73,4 +120,32 @@ func runFailW(a args) error {
 		out.Add(term, map[string]any{"id_bytes": size, "status": code, "acknowledged": acked, "delivered_live": delivered, "stored": has(big), "stored_ids_count": len(stored), "last_event_id_after_the_refusal_bytes": len(lastAfter), "last_event_id_is_previous": lastAfter == "first"}, true, fmt.Sprintf("status:%d", code), fmt.Sprintf("id-bytes:%d", size))
 	}
 	return out.Flush()
+}
+
+// breakWrites replaces every descriptor this process holds on path by a read-only descriptor on /dev/null (dup2 keeps the
+// number occupied, so that no file opened later can receive bbolt's writes).
+func breakWrites(path string) error {
+	null, err := syscall.Open("/dev/null", syscall.O_RDONLY, 0)
+	if err != nil {
+		return err
+	}
+	defer syscall.Close(null)
+	ents, err := os.ReadDir("/proc/self/fd")
+	if err != nil {
+		return err
+	}
+	n := 0
+	for _, e := range ents {
+		if l, err := os.Readlink("/proc/self/fd/" + e.Name()); err == nil && l == path {
+			fd, _ := strconv.Atoi(e.Name())
+			if err := syscall.Dup2(null, fd); err != nil {
+				return err
+			}
+			n++
+		}
+	}
+	if n == 0 {
+		return fmt.Errorf("no descriptor on %s", path)
+	}
+	return nil
 }
